@@ -24,6 +24,18 @@ static int bad;
 
 template<typename Set, typename T> int run_set(int op, size_t sz, size_t rsz, size_t reserve, bool isnull, unsigned short key, unsigned short key2, const std::vector<unsigned short>& k)
 {
+  if (op == 4)
+  {
+    // base case: the real constructors; isnull selects the empty constructor
+    T *tab(new T[sz ? sz : 1]); for (size_t i = 0; i < sz; ++i) { K(tab[i]) = k[i]; P(tab[i]) = (unsigned short)(100 + i); }
+    Set *c(isnull ? new Set(size_t(0), reserve) : new Set(tab, sz, reserve));
+    CHECK(c->size() == (isnull ? 0 : sz) && c->size() <= c->rsize() && c->rsize() >= 1, "constructed set: size()=%zu rsize()=%zu (reserve argument %zu)", c->size(), c->rsize(), reserve);
+    printf("C12 inserting one element into the constructed set\n"); fflush(stdout);
+    T what(key); auto r(c->insert(&what));
+    CHECK(r.second == (isnull || std::find(k.begin(), k.end(), key) == k.end()), "insert after construction returned %d", int(r.second));
+    printf("C12 set %s\n", bad ? "VIOLATED" : "ok");
+    return bad ? 1 : 0;
+  }
   Set s(size_t(0), reserve);
   const_cast<size_t&>(s._reserve) = reserve; s._sz = sz; s._rsz = rsz; s._arr = isnull ? nullptr : new T[rsz];
   for (size_t i = 0; i < sz; ++i) { K(s._arr[i]) = k[i]; P(s._arr[i]) = (unsigned short)(100 + i); }
